@@ -17,8 +17,12 @@ for m in re.finditer(r'^replace .*$',src,re.M):
     out.append(m.group(0))
 out.append("require github.com/nuts-foundation/nuts-node v0.0.0")
 out.append("replace github.com/nuts-foundation/nuts-node => "+repo)
-open('harness/go.mod','w').write("\n".join(out)+"\n")
+new="\n".join(out)+"\n"
+import os
+old=open('harness/go.mod').read() if os.path.exists('harness/go.mod') else None
+if old!=new:
+    open('harness/go.mod.tmp','w').write(new); os.replace('harness/go.mod.tmp','harness/go.mod')
 PY
-cp "$REPO/go.sum" harness/go.sum
+cmp -s "$REPO/go.sum" harness/go.sum || { cp "$REPO/go.sum" harness/go.sum.tmp && mv harness/go.sum.tmp harness/go.sum; }
 python3 tools/mkoverlay.py
 echo "setup ok"
